@@ -25,6 +25,7 @@ UMax(n, m) == [k |-> "UMax", n |-> n, m |-> m]   \* n-bit field with { field <= 
 UPos(n) == [k |-> "UPos", n |-> n]            \* n-bit field with { field >= 1 }
 URange(n, lo, hi) == [k |-> "URange", n |-> n, lo |-> lo, hi |-> hi]   \* n-bit field with { lo <= field <= hi } (small bounds)
 Pick(fl, t0, t1) == [k |-> "Pick", fl |-> fl, t0 |-> t0, t1 |-> t1]     \* (T fl) inline: T parameterised by an earlier one-bit field; value [v0, v1]
+UnitT == [k |-> "Unit"]                       \* Unit: no bits, no leaves (dictionaries used as sets)
 Bool == [k |-> "Bool"]
 VarU(n) == [k |-> "VarU", n |-> n]            \* VarUInteger n: length field of BitLen(n - 1) bits, then that many bytes
 VarI(n) == [k |-> "VarI", n |-> n]
@@ -81,6 +82,7 @@ RECURSIVE EncT(_, _, _), EncAlt(_, _), DictTree(_, _, _), ForkExtraV(_, _), Zero
 \* ctx = the record the field lives in (for conditional fields)
 EncT(t, v, ctx) ==
     CASE t.k \in {"U", "I", "Bits", "Bool", "Leq", "Zero", "One", "UMax", "UPos", "URange"} -> Only(v)
+      [] t.k = "Unit" -> Only(<<>>)
       [] t.k = "Pick" -> IF ctx[t.fl] = <<1>> THEN EncT(t.t1, v.v1, ctx) ELSE EncT(t.t0, v.v0, ctx)
       [] t.k \in {"VarU", "VarI"} -> Only(NatBits(Len(v), BitLen(t.n - 1)) \o ByteBits(v))
       [] t.k = "AddrInt" -> Only(<<1, 0>> \o (IF v.any = <<>> THEN <<0>> ELSE <<1>> \o NatBits(Len(v.any[1]), 5) \o v.any[1]) \o v.wc \o v.hash)
@@ -156,6 +158,7 @@ RECURSIVE Leaves(_, _, _, _), Flat2R(_, _, _, _), BtLeaves(_)
 BtLeaves(v) == IF v.leaf # <<>> THEN v.leaf ELSE BtLeaves(v.kids[1]) \o BtLeaves(v.kids[2])
 Leaves(t, v, ctx, path) ==
     CASE t.k \in {"U", "Leq", "Zero", "One", "UMax", "UPos", "URange"} -> <<Leaf(path, "U", [int |-> BigOfUBits(v)])>>
+      [] t.k = "Unit" -> <<>>
       [] t.k = "Pick" -> IF ctx[t.fl] = <<1>> THEN Leaves(t.t1, v.v1, ctx, path) ELSE Leaves(t.t0, v.v0, ctx, path)
       [] t.k = "I" -> <<Leaf(path, t.k, [int |-> BigOfSBits(v)])>>
       [] t.k = "Bits" -> <<Leaf(path, t.k, BytesOrInt(v))>>
@@ -233,6 +236,7 @@ DecFields(a, sl0) ==
     LET d == DecFieldsRaw(a, sl0) IN IF d.ok /\ ConsOk(a, d.v) THEN d ELSE Bad
 DecT(t, sl, ctx) ==
     CASE t.k \in {"U", "I", "Bits", "One"} -> DecBits(sl, t.n)
+      [] t.k = "Unit" -> Good(<<>>, sl)
       [] t.k = "Bool" -> DecBits(sl, 1)
       [] t.k = "Zero" -> LET d == DecBits(sl, t.n) IN IF d.ok /\ AllZero(d.v) THEN d ELSE Bad
       [] t.k = "UPos" -> LET d == DecBits(sl, t.n) IN IF d.ok /\ ~AllZero(d.v) THEN d ELSE Bad
